@@ -374,6 +374,44 @@ def stage_oracle_make(rep, rng, n):
     return bad
 
 
+CMDWORDS = ['ok-cmd', 'A=1', 'a=b=c', '-cmd', '@cmd', '+cmd', "it's", 'a b', '~cmd', '%cmd', '=x', '1A=2']
+
+
+def stage_oracle_cmdword(rep):
+    """The command word position: programs with odd names (symlinks to the recorder on PATH) must be started
+    under exactly that name, with their arguments and environment, through Make + sh."""
+    import os, shutil
+    from io import StringIO
+    from bfg9000.backends.make.syntax import Makefile
+    from bfg9000.shell import posix as pshell
+    d = common.scratch('c01cw')
+    bad = 0
+    try:
+        bindir = os.path.join(d, 'bin')
+        os.mkdir(bindir)
+        for w in CMDWORDS:
+            os.symlink(shtools.ARGVREC, os.path.join(bindir, w))
+        for w in CMDWORDS:
+            for envd in ({}, {'VAR': 'v 1'}):
+                mk = Makefile('build.bfg')
+                mk.rule('all', recipe=[pshell.global_env(envd, [[w, 'x y']]) if envd else [w, 'x y']], phony=True)
+                o = StringIO(); mk.write(o)
+                rc, recs, out = shtools.make_run(o.getvalue(), 'all', envnames=('VAR',),
+                                                 extra_env={'PATH': bindir + ':/usr/bin:/bin'})
+                got = [(os.path.basename(r['argv0'] or ''), r['argv'], r['env'].get('VAR')) for r in recs] if rc == 0 else None
+                want = [(w, ['x y'], envd.get('VAR'))]
+                rep.case('cw:%s:%r' % (w, envd), True)
+                if got != want:
+                    if rep.fail('Make backend: command word %r with args %r env %r is run as %r' % (w, ['x y'], envd, got),
+                                {'command_word': w, 'env': envd, 'delivered': got, 'makefile': o.getvalue(), 'out': out[-300:]},
+                                classes=classify_make_failure('recipe', [w])):
+                        bad += 1
+    finally:
+        shutil.rmtree(d, ignore_errors=True)
+    rep.stage('oracle:command words', words=len(CMDWORDS), failures=bad)
+    return bad
+
+
 def run(rep):
     rng = random.Random(rep.seed)
     thorough = rep.tier == 'thorough'
@@ -385,6 +423,7 @@ def run(rep):
     stage_r_make(rep, rng, 300 if thorough else 60)
     found = stage_oracle_quote(rep, rng, n // 2 * (10 if dis else 1))
     found += stage_oracle_make(rep, rng, (400 if thorough else 60) * (5 if dis else 1))
+    found += stage_oracle_cmdword(rep)
     if dis and not found:
         i, call, iv, mv = dis[0]
         rep.fail('W:%s - model and implementation disagree (%d cases), e.g. %r: impl %r, model %r' % (
